@@ -20,7 +20,7 @@ pub const SPECS: &[PropSpec] = &[
     PropSpec { id: "C18", level: "exploration", quick_runs: 8_000, thorough_runs: 200_000,
         rule: "seeded history H over 2-5 queues sharing files, with restarts; for every queue q the projection H|q (calls addressed to q + restarts/persists/ticks) runs on a fresh simulated disk; oracle (no reference model): outcomes of q's calls and exists/range/last_position/last_record of q agree at every corresponding point. Crash variant: crash inside a call addressed to another queue at sampled effect boundaries and torn writes, recover, q must equal its projection; under flush-per-call policies always, under DoNothing/OnDelay only when every call addressed to q had reached the OS (explicit persist, create/delete of any queue or clean restart after q's last call) before the crash. Non-trivial: a call addressed to another queue deleted a WAL file during the history. Distinct: history signature x q.",
         assumptions: &["process-crash model for the crash variant"] },
-    PropSpec { id: "C07", level: "exploration", quick_runs: 20_000, thorough_runs: 400_000,
+    PropSpec { id: "C07", level: "exploration", quick_runs: 20_000, thorough_runs: 3_000_000,
         rule: "directed histories: filler appends steer the write cursor so that r bytes remain in the block (r in 0..=24 or random), then an entry whose length leaves r' bytes (r' in 0..=24 or random) after spanning {0,1,2,3,5} extra blocks (up to ~160 KiB: crosses 1-2 four-block files), followed by {empty-payload append, 1-frame entry, multi-block entry, truncate, restart, restart-then-append}; thorough adds the complete 25x25x5x6 grid. Oracle: (a) an independent WAL parser reads back from the SimFs image exactly the entries the calls should have produced, frames never cross a block, padding only where < 7 B remained; (b) after restart the crate's own reader yields the model state; (c) the next write lands where the parser says the log ends. Non-trivial: entry under test spans >= 2 frames, or r < 8, or r' < 8, or crosses a file end. Distinct: (r class, r' class, blocks spanned, follow-up kind).",
         assumptions: &["pure input-space statement: no fault is injected; the simulator contributes simulated files, restart at the same alignment and cursor steering"] },
 ];
